@@ -53,11 +53,18 @@ def main():
         report['tests_with_change'] = out.strip().splitlines()[-1]
         report['tests_pass'] = rc == 0
         rc1, out1 = sh('/venv/bin/python demo.py', cwd=wt, env=env)
-        sh('git stash', cwd=wt)
+        # (git stash is shared by all worktrees of a repository: use a patch)
+        tmp = os.path.join(wt, '.eval_seed.patch')
+        with open(tmp, 'w') as fh:
+            fh.write(patch)
+        rcr, outr = sh('git apply -R .eval_seed.patch', cwd=wt)
+        assert rcr == 0, outr
         try:
             rc0, out0 = sh('/venv/bin/python demo.py', cwd=wt, env=env)
         finally:
-            sh('git stash pop', cwd=wt)
+            rca, outa = sh('git apply .eval_seed.patch', cwd=wt)
+            assert rca == 0, outa
+            os.unlink(tmp)
         report['demo_with_change_exit'] = rc1
         report['demo_without_change_exit'] = rc0
         report['demo_ok'] = rc1 != 0 and rc0 == 0
